@@ -3,7 +3,7 @@
 From Coq Require Import NArith List Bool.
 From AV Require Import Generated.Table Spec.Utf8 Spec.Vt Spec.Strip Spec.Sgr Model.Base Model.Utf8parse Model.Parser Model.Strip
   Model.Wincon Proofs.TableFacts Proofs.ParserSim Proofs.StripMachine Proofs.StripSim Proofs.StripStr Proofs.WinconRuns
-  Generated.StripFn Proofs.StripGen.
+  Generated.StripFn Proofs.StripGen Generated.WinconFn Proofs.WinconGen.
 Import ListNotations.
 Local Open Scope N_scope.
 
@@ -177,3 +177,21 @@ Theorem c03_translated_str_chunks_refine_spec :
     concat (map (@concat N) pss) = spec_strip (concat chunks) /\
     Some (concat (map (@concat N) pss)) = g_strip_str_to_string (concat chunks).
 Proof. exact translated_str_chunks_refine_spec. Qed.
+
+(* ---- the tie by translation (wincon extractor) ---------------------------------------- *)
+
+(* the functions translated from crates/anstream/src/adapter/wincon.rs (Generated/WinconFn.v,
+   tools/gen_fn_wincon.py), called chunk by chunk, compute what the hand model computes ... *)
+Theorem c03_translated_wincon_chunks_is_model :
+  forall chunks p c, g_extract_chunks chunks p c = extract_chunks chunks p c.
+Proof. exact translated_extract_chunks_is_model. Qed.
+
+(* ... hence chunking does not change what the translated code yields *)
+Theorem c03_translated_wincon_chunked :
+  forall chunks, Forall (fun b => b < 256) (concat chunks) ->
+  exists itss its p c,
+    g_extract_chunks chunks parser_new capture_default = Some (itss, p, c) /\
+    g_extract_next (concat chunks) parser_new capture_default = Some (its, p, c) /\
+    flatten (concat itss) = flatten its /\
+    merge_runs (concat itss) = merge_runs its.
+Proof. exact translated_wincon_chunked. Qed.
